@@ -100,7 +100,7 @@ class _Continue(Exception):
     pass
 
 
-BUILTINS = {'issubclass', 'dict', 'range', 'enumerate', 'str', 'int', 'len', 'abs', 'isinstance', 'tuple', 'bool', 'ValueError', 'Exception',
+BUILTINS = {'bytearray', 'issubclass', 'dict', 'range', 'enumerate', 'str', 'int', 'len', 'abs', 'isinstance', 'tuple', 'bool', 'ValueError', 'Exception',
             'KeyError', 'NotImplementedError', 'TypeError', 'list', 'sorted', 'set', 'min', 'max', 'all', 'any', 'zip', 'map',
             'print', 'repr', 'ConnectionError', 'IndexError', 'AssertionError', 'sum', 'reversed', 'frozenset', 'getattr', 'hasattr',
             'setattr', 'RuntimeError', 'OSError', 'id', 'iter', 'next', 'divmod', 'round', 'type', 'object', 'AttributeError', 'StopIteration',
@@ -476,6 +476,36 @@ def partition_fold(call, lo=None, hi=None, limit=4000):
     return sorted(leaves, key=lambda t: (t[0] is not None, t[0] if t[0] is not None else 0))
 
 
+class _Fmt:
+    """An object of the subject handed to str.format / % : formatted through the subject's own __format__ / __str__ / __repr__."""
+    __slots__ = ('v', 'fo')
+
+    def __init__(self, v, fo):
+        self.v, self.fo = v, fo
+
+    def __str__(self):
+        return self.fo._str(self.v)
+
+    def __repr__(self):
+        c_, fn_ = self.fo._find(self.v.cls, '__repr__')
+        if fn_ is not None:
+            return self.fo._invoke(c_.module, c_, fn_, self.v, [], {})
+        if isinstance(self.v, EV):
+            return f'<{self.v.cls.name.split(".")[-1]}.{self.v.name}: {self.v.value!r}>'
+        raise Unsupported('repr() of an object of the subject without __repr__')
+
+    def __format__(self, spec):
+        c_, fn_ = self.fo._find(self.v.cls, '__format__')
+        if fn_ is not None:
+            return self.fo._invoke(c_.module, c_, fn_, self.v, [spec], {})
+        if isinstance(self.v, EV) and self.v.cls.enum_kind in ('IntEnum', 'IntFlag') and spec:
+            return format(self.v.value, spec)
+        return format(self.fo._str(self.v), spec)
+
+    def __getattr__(self, name):
+        return self.fo._attr(self.v, name)
+
+
 class _GenClose(BaseException):
     """Thrown into a suspended generator of the subject when it is closed."""
 
@@ -690,6 +720,8 @@ class Folder:
             return c
         if isinstance(obj, dict):
             c = {}
+            if type(obj) is not dict and hasattr(obj, 'default_factory'):
+                c = type(obj)(obj.default_factory)
             memo[id(obj)] = c
             for k, v in obj.items():
                 c[self.clone(k, memo)] = self.clone(v, memo)
@@ -749,6 +781,8 @@ class Folder:
     def _attr(self, obj, name):
         if isinstance(obj, EV):
             if name == 'value':
+                if isinstance(obj.value, ast.AST):
+                    return self._eval(obj.value, {}, obj.cls.module, obj.cls)
                 return obj.value
             if name == 'name':
                 return obj.name
@@ -858,6 +892,8 @@ class Folder:
                 return getattr(_re, name)
         if isinstance(obj, tuple) and len(obj) == 2 and obj[0] == 'pymodule' and obj[1] == 'numpy' and self.numpy is not None:
             return self.numpy.attr(name)
+        if isinstance(obj, tuple) and len(obj) == 2 and obj[0] == 'pymodule' and obj[1] == 'collections':
+            return self._collections(name)
         if isinstance(obj, tuple) and len(obj) == 2 and obj[0] == 'pymodule' and obj[1] in ('itertools', 'functools'):
             return self._stdlib_hof(obj[1], name)
         if isinstance(obj, tuple) and len(obj) == 2 and obj[0] == 'pyfunc' and getattr(obj[1], '_sa_attrs', None) and name in obj[1]._sa_attrs:
@@ -1096,6 +1132,10 @@ class Folder:
                     it = list(it)
                 if getattr(it, '_sa_native', False) and hasattr(it, '__iter__'):
                     it = list(it)
+                if isinstance(it, DV):
+                    it = self._iter_of(it)
+                if isinstance(it, (bytes, bytearray)):
+                    it = list(it)
                 if not isinstance(it, (list, tuple, range, str, LazyIter)):
                     raise Unsupported('for over ' + type(it).__name__)
                 broke = False
@@ -1115,7 +1155,52 @@ class Folder:
             elif isinstance(st, ast.Continue) and self.allow_loops:
                 raise _Continue()
             else:
+                if isinstance(st, ast.Match) and self.allow_loops:
+                    subj = self._eval(st.subject, env, mod, ci)
+                    for case in st.cases:
+                        binds: dict = {}
+                        if self._match(case.pattern, subj, binds, env, mod, ci):
+                            env.update(binds)
+                            if case.guard is not None and not self._truth(self._eval(case.guard, env, mod, ci)):
+                                continue
+                            self._block(case.body, env, mod, ci)
+                            break
+                    continue
                 raise Unsupported(f'statement {type(st).__name__} in folded function')
+
+    def _collections(self, name: str):
+        """collections.defaultdict / deque / OrderedDict / Counter as the containers of the subject (the real classes on the analyser's values;
+        a default factory of the subject is called through the folder)."""
+        import collections
+        fo = self
+        if name == 'defaultdict':
+            class DefaultDict(dict):
+                def __init__(self, factory=None, *a, **k):
+                    super().__init__(*a, **k)
+                    self.default_factory = factory
+
+                def __missing__(self, key):
+                    if self.default_factory is None:
+                        raise KeyError(key)
+                    f_ = self.default_factory
+                    v_ = fo._pycallable(f_)() if not callable(f_) or isinstance(f_, (Bound, ClsRef)) else f_()
+                    self[key] = v_
+                    return v_
+            def make(factory=None, *a, **k):
+                if isinstance(factory, tuple) and len(factory) == 2 and factory[0] == 'builtin':
+                    import builtins as _b
+                    factory = getattr(_b, factory[1])
+                return DefaultDict(factory, *a, **k)
+            return ('pyfunc', make)
+        if name == 'deque':
+            class Deque(collections.deque):
+                _sa_native = True
+            return ('pyfunc', lambda it=(), maxlen=None: Deque(list(fo._iterate(it)) if isinstance(it, (LazyIter, DV)) else it, maxlen))
+        if name == 'OrderedDict':
+            return ('pyfunc', lambda *a, **k: dict(*a, **k))
+        if name == 'Counter':
+            return ('pyfunc', lambda it=(): dict(collections.Counter(list(fo._iterate(it)) if isinstance(it, (LazyIter, DV)) else it)))
+        raise Unsupported(f'collections.{name}')
 
     def _stdlib_hof(self, modname: str, name: str):
         """itertools / functools: the real functions, over the subject's iterables (kept lazy) and callables."""
@@ -1186,8 +1271,105 @@ class Folder:
             call._sa_attrs = {'from_iterable': lambda xs: LazyIter(itertools.chain.from_iterable(seq(x) for x in seq(xs)))}
         return ('pyfunc', call)
 
+    def _iter_of(self, obj: DV) -> 'LazyIter':
+        """iter(obj) for an object of the subject: its __iter__ (a generator method or one returning an iterator / self with __next__)."""
+        c_, fn_ = self._find(obj.cls, '__iter__')
+        if fn_ is None:
+            raise FoldRaise('TypeError', f"'{obj.cls.name}' object is not iterable")
+        r = self._invoke(c_.module, c_, fn_, obj, [], {})
+        if isinstance(r, LazyIter):
+            return r
+        if isinstance(r, DV):
+            cn, nx = self._find(r.cls, '__next__')
+            if nx is None:
+                raise FoldRaise('TypeError', 'iter() returned non-iterator')
+
+            def gen():
+                while True:
+                    try:
+                        yield self._invoke(cn.module, cn, nx, r, [], {})
+                    except FoldRaise as fr:
+                        if fr.kind == 'StopIteration':
+                            return
+                        raise
+            return LazyIter(gen())
+        if isinstance(r, (list, tuple)):
+            return LazyIter(iter(list(r)))
+        raise Unsupported('__iter__ returned ' + type(r).__name__)
+
+    def _match(self, pat, v, binds, env, mod, ci) -> bool:
+        """Structural pattern matching (PEP 634) for the patterns over literals, names, sequences, alternatives and classes."""
+        if isinstance(pat, ast.MatchValue):
+            return self._truth(self._cmp(ast.Eq(), v, self._eval(pat.value, env, mod, ci)))
+        if isinstance(pat, ast.MatchSingleton):
+            return v is pat.value
+        if isinstance(pat, ast.MatchAs):
+            if pat.pattern is not None and not self._match(pat.pattern, v, binds, env, mod, ci):
+                return False
+            if pat.name is not None:
+                binds[pat.name] = v
+            return True
+        if isinstance(pat, ast.MatchOr):
+            for alt in pat.patterns:
+                b2: dict = {}
+                if self._match(alt, v, b2, env, mod, ci):
+                    binds.update(b2)
+                    return True
+            return False
+        if isinstance(pat, ast.MatchSequence):
+            if not isinstance(v, (list, tuple)):
+                return False
+            stars = [i for i, x in enumerate(pat.patterns) if isinstance(x, ast.MatchStar)]
+            if not stars:
+                if len(v) != len(pat.patterns):
+                    return False
+                return all(self._match(p_, x_, binds, env, mod, ci) for p_, x_ in zip(pat.patterns, v))
+            si = stars[0]
+            after = len(pat.patterns) - si - 1
+            if len(v) < len(pat.patterns) - 1:
+                return False
+            if not all(self._match(p_, x_, binds, env, mod, ci) for p_, x_ in zip(pat.patterns[:si], v[:si])):
+                return False
+            if pat.patterns[si].name is not None:
+                binds[pat.patterns[si].name] = list(v[si:len(v) - after])
+            return all(self._match(p_, x_, binds, env, mod, ci) for p_, x_ in zip(pat.patterns[si + 1:], v[len(v) - after:] if after else []))
+        if isinstance(pat, ast.MatchClass):
+            c_ = self._eval(pat.cls, env, mod, ci)
+            if isinstance(c_, ClsRef):
+                if not (isinstance(v, (EV, DV)) and c_.cls in self.repo.mro(v.cls)):
+                    return False
+                if pat.patterns:
+                    raise Unsupported('positional sub-patterns of a class pattern')
+                return all(self._match(p_, self._attr(v, a_), binds, env, mod, ci) for a_, p_ in zip(pat.kwd_attrs, pat.kwd_patterns))
+            if isinstance(c_, tuple) and len(c_) == 2 and c_[0] == 'builtin' and c_[1] in ('str', 'int', 'float', 'bool', 'list', 'tuple', 'dict', 'bytes', 'set'):
+                import builtins as _b
+                if isinstance(v, bool) and c_[1] == 'int':
+                    ok_ = True
+                else:
+                    ok_ = isinstance(v, getattr(_b, c_[1]))
+                if not ok_:
+                    return False
+                if len(pat.patterns) == 1:
+                    return self._match(pat.patterns[0], v, binds, env, mod, ci)
+                return not pat.patterns
+            raise Unsupported('class pattern over ' + repr(c_)[:40])
+        if isinstance(pat, ast.MatchMapping):
+            if not isinstance(v, dict):
+                return False
+            for k_, p_ in zip(pat.keys, pat.patterns):
+                kv = self._eval(k_, env, mod, ci)
+                if kv not in v or not self._match(p_, v[kv], binds, env, mod, ci):
+                    return False
+            if pat.rest is not None:
+                used = {self._eval(k_, env, mod, ci) for k_ in pat.keys}
+                binds[pat.rest] = {k_: x_ for k_, x_ in v.items() if k_ not in used}
+            return True
+        raise Unsupported('match pattern ' + type(pat).__name__)
+
     def _iterate(self, it):
         """Iterate a value of the subject one item at a time (lazy iterators stay lazy; every item costs a step)."""
+        if isinstance(it, DV):
+            it = self._iter_of(it)
         if not isinstance(it, LazyIter):
             yield from it
             return
@@ -1343,11 +1525,15 @@ class Folder:
             if len(args) != 1:
                 raise Unsupported('enum call arity')
             for n, val in ci.enum_members().items():
+                if isinstance(val, ast.AST):
+                    if self._truth(self._cmp(ast.Eq(), self._eval(val, {}, ci.module, ci), args[0])):
+                        return EV(ci, n, val)
+                    continue
                 if val == args[0] and type(val) is type(args[0]):
                     return EV(ci, n, val)
             raise FoldRaise('ValueError', f'{args[0]!r} is not a valid {ci.name}')
         if ci.is_dataclass or ci.is_namedtuple:
-            names = [n for n in ci.order if n in ci.annots]
+            names = [n for n in ci.order if n in ci.annots and not ast.unparse(ci.annots[n]).split('[')[0].split('.')[-1] == 'ClassVar']
             fields: Dict[str, Any] = {}
             for i, n in enumerate(names):
                 if i < len(args):
@@ -1355,10 +1541,23 @@ class Folder:
                 elif n in kw:
                     fields[n] = kw[n]
                 elif n in ci.assigns:
-                    fields[n] = self._eval(ci.assigns[n], {}, ci.module, ci)
+                    dflt = ci.assigns[n]
+                    if isinstance(dflt, ast.Call) and ast.unparse(dflt.func).split('.')[-1] == 'field':
+                        fk = {k.arg: k.value for k in dflt.keywords}
+                        if 'default' in fk:
+                            fields[n] = self._eval(fk['default'], {}, ci.module, ci)
+                        elif 'default_factory' in fk:
+                            fields[n] = self._apply(self._eval(fk['default_factory'], {}, ci.module, ci), [], {})
+                        else:
+                            raise FoldRaise('TypeError', f'{ci.name}() missing required argument {n!r}')
+                    else:
+                        fields[n] = self._eval(dflt, {}, ci.module, ci)
                 else:
-                    raise Unsupported(f'missing field {n} for {ci.name}')
+                    raise FoldRaise('TypeError', f'{ci.name}() missing required argument {n!r}')
             dv = DV(ci, fields)
+            if ci.is_dataclass and not any('frozen=True' in d for d in ci.decorators):
+                self._fresh.add(id(dv))       # a mutable dataclass: its attributes may be assigned
+                self._keep.append(dv)
             if '__post_init__' in ci.methods:
                 self._invoke(ci.module, ci, ci.methods['__post_init__'], dv, [], {})
             return dv
@@ -1392,6 +1591,8 @@ class Folder:
                 return cache[ck]
             if r[0] == 'external' and r[1] == 'numpy' and self.numpy is not None:
                 return self.numpy.attr(r[2])
+            if r[0] == 'external' and r[1] == 'collections':
+                return self._collections(r[2])
             if r[0] == 'external' and r[1] in ('itertools', 'functools'):
                 return self._stdlib_hof(r[1], r[2])
             if r[0] == 'external' and r[1].split('.')[0] in PURE_MODULES:
@@ -1435,6 +1636,14 @@ class Folder:
         return None
 
     def _binop(self, op, a, b):
+        if isinstance(op, ast.Mod) and isinstance(a, str):
+            wrapb = tuple(_Fmt(x, self) if isinstance(x, (EV, DV)) else x for x in b) if isinstance(b, tuple) else (_Fmt(b, self) if isinstance(b, (EV, DV)) else b)
+            try:
+                return a % wrapb
+            except (Unsupported, FoldRaise):
+                raise
+            except (TypeError, ValueError, KeyError) as ex:
+                raise FoldRaise(type(ex).__name__, str(ex))
         name = self.BINOP_DUNDER.get(type(op))
         # objects of the subject: their own operator methods
         if name is not None and (isinstance(a, DV) or isinstance(b, DV)):
@@ -1714,6 +1923,10 @@ class Folder:
                     it = list(it)
                 if getattr(it, '_sa_native', False) and hasattr(it, '__iter__'):
                     it = list(it)
+                if isinstance(it, DV):
+                    it = self._iter_of(it)
+                if isinstance(it, (bytes, bytearray)):
+                    it = list(it)
                 if not isinstance(it, (list, tuple, range, str, frozenset, set, LazyIter)):
                     raise Unsupported('comprehension over ' + type(it).__name__)
                 return sorted(it, key=repr) if isinstance(it, (set, frozenset)) else it
@@ -1742,6 +1955,10 @@ class Folder:
             if isinstance(e, ast.DictComp):
                 return dict(out)
             return out
+        if isinstance(e, ast.NamedExpr):
+            v_ = self._eval(e.value, env, mod, ci)
+            env[e.target.id] = v_
+            return v_
         raise Unsupported(f'expression {type(e).__name__}')
 
     def _attr_or_prop(self, obj, name):
@@ -1893,6 +2110,16 @@ class Folder:
             for prm, a in zip(node.args.args, args):
                 env2[prm.arg] = a
             return self._eval(node.body, env2, cmod, cci)
+        if isinstance(f, tuple) and f[0] == 'strmethod' and isinstance(f[1], str) and f[2] in ('format', 'format_map'):
+            wrap = lambda x: _Fmt(x, self) if isinstance(x, (EV, DV)) else x      # noqa: E731
+            try:
+                if f[2] == 'format':
+                    return f[1].format(*[wrap(a) for a in args], **{k_: wrap(v_) for k_, v_ in kw.items()})
+                return f[1].format_map({k_: wrap(v_) for k_, v_ in args[0].items()})
+            except (Unsupported, FoldRaise):
+                raise
+            except (KeyError, IndexError, ValueError, TypeError, AttributeError) as ex:
+                raise FoldRaise(type(ex).__name__, str(ex))
         if isinstance(f, tuple) and f[0] == 'strmethod':
             conv2 = [self._as_callable(a) for a in args]
             # an enum class handed to a method of a builtin container can only be iterated: its members in definition order
@@ -2021,6 +2248,8 @@ class Folder:
                             yield v_
                     return LazyIter(calls())
                 it_ = args[0]
+                if isinstance(it_, DV):
+                    return self._iter_of(it_)
                 if isinstance(it_, LazyIter):
                     return it_
                 if isinstance(it_, ClsRef) and it_.cls.is_enum:
@@ -2028,6 +2257,16 @@ class Folder:
                 if isinstance(it_, (set, frozenset)):
                     it_ = sorted(it_, key=repr)
                 return LazyIter(iter(list(it_)))
+            if n == 'next' and isinstance(args[0], DV):
+                cn_, nx_ = self._find(args[0].cls, '__next__')
+                if nx_ is None:
+                    raise FoldRaise('TypeError', f"'{args[0].cls.name}' object is not an iterator")
+                try:
+                    return self._invoke(cn_.module, cn_, nx_, args[0], [], {})
+                except FoldRaise as fr_:
+                    if fr_.kind == 'StopIteration' and len(args) > 1:
+                        return args[1]
+                    raise
             if n == 'next':
                 if not isinstance(args[0], LazyIter):
                     raise Unsupported('next() of ' + type(args[0]).__name__)
@@ -2040,6 +2279,10 @@ class Folder:
                     if len(args) > 1:
                         return args[1]
                     raise FoldRaise('StopIteration', '')
+            if n == 'bytearray':
+                return bytearray(*args)
+            if n == 'bytes':
+                return bytes(*args)
             if n == 'divmod':
                 return divmod(*args)
             if n == 'round':
